@@ -33,7 +33,7 @@ META = {
             "is tied to the code by trace acceptance of the real Source+Persister (h_srcack) and by regenerated structural facts.",
     "note": "Proved about the model; the code is tied by acceptance of recorded traces (finite sample) and regenerated facts "
             "(flushNow order and error propagation, Ack/triggerFlush call order, drain condition). Fails on the unfixed tree: "
-            "F1 (failed store Set still commits and acks) and F12 (ack gap after exhausted retries). Since then F1 and F16 are repaired in /repo (fix: commits, see known_findings.json 'fixed'); the shared persister batch (several connectors in one flush) is covered by Model/FlushBatch, the loop-shape fact and the srcbatch correspondence; the engine-side clause (no empty position is acknowledged) by the funnel job.",
+            "F1 (failed store Set still commits and acks) and F12 (ack gap after exhausted retries). Since then F1 and F16 are repaired in /repo (fix: commits, see known_findings.json 'fixed'); the shared persister batch (several connectors in one flush) is covered by Model/FlushBatch, the loop-shape fact and the srcbatch correspondence; the engine-side clause (no empty position is acknowledged) by the funnel job. The position clauses no longer rest on a free engine hypothesis: Props/EndToEnd composes M3 with the engine models (C02_composed_history_positions, C02_composed_history_store_forward over histories with any number of crashes/restarts whose incarnations are fed in read order, which C03_v1_/C03_v2_engine_feeds_connector establish for both engines; v2 up to NoEmptyAckCall).",
     "technique": "Lean 4 invariant proofs over an event system + trace-acceptance correspondence against the real code",
 }
 
@@ -45,6 +45,6 @@ _fj = funnel_job("C02", 4000, 100000)
 # the engine acknowledged an empty / nil position to the source: the durable position would be overwritten with nothing
 _fj["relevant"] = lambda case: bool(_re.search(r"A\[(?:[^\]]*,)?[en](?:,[^\]]*)?\]", case["impl"]))
 PROP["jobs"].append(_fj)
-PROP["lean_modules"] += ["ConduitModel.Props.C04"]
+PROP["lean_modules"] += ["ConduitModel.Props.C04", "ConduitModel.Props.EndToEnd"]
 PROP["rule"] += (" || funnel: see C04/C09 (one case = tree, window, batches, plugin scripts; a tenth of the cases from the bad-source-position "
                  "family: empty / nil source positions meeting nacks, partial DLQ acknowledgments and window refusals)")
